@@ -90,7 +90,10 @@ def advance_probs(facts, b, rb):
                     how.append("bookkeeping after the delegated advance (cnt <= limit)")
                     continue
         ctx = Ctx(b, bi, facts, norm=erase_sites)
-        if ctx.le(("param", 2), R):
+        # the bound may also be spelt as a call of the impl's own remaining() on self
+        own_call = [r_[2] for r_ in ctx.rels if r_[0] in ("le", "lt") and r_[1] == ("param", 2) and isinstance(r_[2], tuple) and r_[2] and r_[2][0] == "call"
+                    and r_[2][1] == rb.id and len(r_[2][2]) == 1 and canon(r_[2][2][0]) in (("param", 1), ("deref", ("param", 1)))]
+        if ctx.le(("param", 2), R) or own_call:
             how.append("guard cnt <= %s before %s" % (fmt_expr(R)[:50], nm))
         else:
             probs.append("`%s` is reached without a dominating guard cnt <= remaining() [= %s]" % (nm, fmt_expr(R)[:60]))
